@@ -90,8 +90,10 @@ def judgeC18 : P Verdict := do
       let l ← pLayer
       let st ← tok
       pure (l, (st.drop 1).toString.toNat?.getD 0))
+    -- a disagreement on the queued operators is reported after the property oracles below had their say
+    let mut pending : Option String := none
     if ops.length != A.ops.length || !(ops.zip A.ops).all (fun ((l, s), (l', s')) => layerEq l l' && s == s') then
-      return .diverge s!"queued operators differ: model {A.ops.map (fun o => (layerName o.1, o.2))} impl {ops.map (fun o => (layerName o.1, o.2))}"
+      pending := some s!"queued operators differ: model {A.ops.map (fun o => (layerName o.1, o.2))} impl {ops.map (fun o => (layerName o.1, o.2))}"
     if nl ≥ 3 then tag "nt"
     -- distillation of the accepted architecture
     expect ";;"
@@ -128,11 +130,16 @@ def judgeC18 : P Verdict := do
       | _ =>
         let sa ← pNat; let sb ← pNat; let sc ← pNat
         let evS ← pEvals npts
+        let headDim := outDimOf consts n0 (layers.take k)
+        if sa != headDim then
+          return .propfail s!"[C18] split at {k}: extract_range(0,{k}).current_shape = {sa} but the network {(layers.take k).map layerName} has output dimension {headDim}"
+        if sb != headDim then
+          return .propfail s!"[C18] split at {k}: extract_range({k},{layers.length}).input_shape = {sb} but the head produces {headDim} values"
         match A.extractRange 0 k, A.extractRange k A.ops.length with
         | .ok a, .ok b =>
           if (sa, sb, sc) != (a.currentShape, b.inputShape, b.currentShape) then
-            return .diverge s!"split at {k}: shapes model=({a.currentShape},{b.inputShape},{b.currentShape}) impl=({sa},{sb},{sc})"
-        | _, _ => return .diverge s!"split at {k}: model rejects the range"
+            if pending.isNone then pending := some s!"split at {k}: shapes model=({a.currentShape},{b.inputShape},{b.currentShape}) impl=({sa},{sb},{sc})"
+        | _, _ => if pending.isNone then pending := some s!"split at {k}: model rejects the range"
         for ((x, e), w) in (pts.zip evS).zip evW do
           match e, w with
           | .val a, .val b =>
@@ -152,6 +159,7 @@ def judgeC18 : P Verdict := do
         return .diverge s!"extract_range({s},{e}): model=({a.ops.length},{a.inputShape},{a.currentShape}) impl=({len},{ish},{csh})"
     | .error er, r => if r != errName er then return .diverge s!"extract_range({s},{e}): model error {errName er} impl {r}"
     | .ok _, r => return .diverge s!"extract_range({s},{e}): model ok impl {r}"
+    if let some msg := pending then return .diverge msg
     pure (if inexact then .inexact "values" else .ok)
   | "npz" =>
     let ne ← pNat
